@@ -60,4 +60,17 @@ theorem escrow_backed_after_module_service_call {cfg : Config} {p : Params} {h0 
   have := (callMod_invM s id svc prov cons cap inputOk code out (reachable_inv hc hr) hcons hfresh).escrow
   rw [activeFees_eq]; exact this
 
+/-- … and the keeper-level binding by which the application gives its module service a provider (`modBind`:
+    `Keeper.AddServiceBinding` without the handler's reservation check) keeps **every** invariant, the backing
+    equation among them: from every reachable state, accepted or rejected. -/
+theorem escrow_backed_after_module_binding {cfg : Config} {p : Params} {h0 t0 : Int} (hc : CfgOK cfg p) {s : State}
+    (hr : Reachable cfg p h0 t0 s) (svc : SvcName) (pv o : Addr) (dep : Option Nat) (text : PricingText) (qos : Nat)
+    (ho : ¬ s.modAcct o) :
+    Inv (modBind s svc pv o dep text qos).1 ∧
+    (modBind s svc pv o dep text qos).1.bal (modBind s svc pv o dep text qos).1.cfg.escrow =
+      activeFees (modBind s svc pv o dep text qos).1 + earnedSum (modBind s svc pv o dep text qos).1 := by
+  have h := modBind_inv s svc pv o dep text qos (reachable_inv hc hr) ho
+  refine ⟨h, ?_⟩
+  rw [activeFees_eq]; exact h.m.escrow
+
 end SM.C01
